@@ -1,0 +1,135 @@
+//go:build verif
+
+package profiledb
+
+import (
+	"context"
+	"log/slog"
+	"net/netip"
+	"time"
+
+	"github.com/AdguardTeam/AdGuardDNS/internal/agd"
+	"github.com/AdguardTeam/AdGuardDNS/internal/profiledb/internal"
+	"github.com/AdguardTeam/AdGuardDNS/internal/profiledb/internal/filecachepb"
+	"github.com/c2h5oh/datasize"
+)
+
+// VerifC14FileCache is the file-cache structure, re-exported for the
+// verification harness.
+type VerifC14FileCache = internal.FileCache
+
+// VerifC14FileCacheVersion is the current file-cache version.
+const VerifC14FileCacheVersion = internal.FileCacheVersion
+
+// VerifC14HumanKey is an exported copy of the key of the human-ID index.
+type VerifC14HumanKey struct {
+	Lower   agd.HumanIDLower
+	Profile agd.ProfileID
+}
+
+// VerifC14Snap is a copy of the index maps of a [Default].
+type VerifC14Snap struct {
+	DevToProf map[agd.DeviceID]agd.ProfileID
+	Dedicated map[netip.Addr]agd.DeviceID
+	Linked    map[netip.Addr]agd.DeviceID
+	Human     map[VerifC14HumanKey]agd.DeviceID
+	Profiles  map[agd.ProfileID]*agd.Profile
+	Devices   map[agd.DeviceID]*agd.Device
+}
+
+// VerifC14Snapshot returns a copy of the maps of db.
+func (db *Default) VerifC14Snapshot() (s *VerifC14Snap) {
+	db.mapsMu.RLock()
+	defer db.mapsMu.RUnlock()
+
+	s = &VerifC14Snap{
+		DevToProf: map[agd.DeviceID]agd.ProfileID{},
+		Dedicated: map[netip.Addr]agd.DeviceID{},
+		Linked:    map[netip.Addr]agd.DeviceID{},
+		Human:     map[VerifC14HumanKey]agd.DeviceID{},
+		Profiles:  map[agd.ProfileID]*agd.Profile{},
+		Devices:   map[agd.DeviceID]*agd.Device{},
+	}
+
+	for k, v := range db.deviceIDToProfileID {
+		s.DevToProf[k] = v
+	}
+
+	for k, v := range db.dedicatedIPToDeviceID {
+		s.Dedicated[k] = v
+	}
+
+	for k, v := range db.linkedIPToDeviceID {
+		s.Linked[k] = v
+	}
+
+	for k, v := range db.humanIDToDeviceID {
+		s.Human[VerifC14HumanKey{Lower: k.lower, Profile: k.profile}] = v
+	}
+
+	for k, v := range db.profiles {
+		s.Profiles[k] = v
+	}
+
+	for k, v := range db.devices {
+		s.Devices[k] = v
+	}
+
+	return s
+}
+
+// VerifC14ForceSyncKind makes the next Refresh a full synchronisation if full
+// is true and a partial one otherwise, independently of the wall clock.
+func (db *Default) VerifC14ForceSyncKind(full bool) {
+	db.refreshMu.Lock()
+	defer db.refreshMu.Unlock()
+
+	db.lastFullSyncError = time.Time{}
+	if full {
+		db.lastFullSync = time.Time{}
+		db.fullSyncIvl = 0
+	} else {
+		db.lastFullSync = time.Now()
+		db.fullSyncIvl = 1000 * time.Hour
+	}
+}
+
+// VerifC14StoreCache writes c to path through the protobuf file-cache storage.
+func VerifC14StoreCache(
+	ctx context.Context,
+	l *slog.Logger,
+	path string,
+	c *VerifC14FileCache,
+	respSzEst datasize.ByteSize,
+) (err error) {
+	return filecachepb.New(l, path, respSzEst).Store(ctx, c)
+}
+
+// VerifC14LoadCache reads the cache at path through the protobuf file-cache
+// storage.
+func VerifC14LoadCache(
+	ctx context.Context,
+	l *slog.Logger,
+	path string,
+	respSzEst datasize.ByteSize,
+) (c *VerifC14FileCache, err error) {
+	return filecachepb.New(l, path, respSzEst).Load(ctx)
+}
+
+// VerifC14IsCacheVersionError reports whether err is the cache-version error.
+func VerifC14IsCacheVersionError(err error) (ok bool) {
+	for err != nil {
+		if err == internal.CacheVersionError { //nolint:errorlint
+			return true
+		}
+
+		u, isU := err.(interface{ Unwrap() error })
+		if !isU {
+			return false
+		}
+
+		err = u.Unwrap()
+	}
+
+	return false
+}
